@@ -213,11 +213,15 @@ def get_unescaped_str(string: str, qm: str) -> str:
     for i in string:
         if i == qm:
             out.append(f"\\{qm}")
-        elif ord(i) > 255:
+        elif ord(i) > 255 and i.isprintable():
             out.append(i)
         else:
             out.append(ascii(i)[1:-1])
     return "".join(out)
+
+
+# a float literal that overflows to inf
+_INF_STR = "1e" + repr(sys.float_info.max_10_exp + 1)
 
 
 def unparse_Constant(node: Constant, qm: typing.Literal["'", '"']) -> unparse_gen_t:
@@ -226,6 +230,9 @@ def unparse_Constant(node: Constant, qm: typing.Literal["'", '"']) -> unparse_ge
     if isinstance(node.value, str):
         value = get_unescaped_str(node.value, qm)
         return f"{qm}{value}{qm}"
+    if isinstance(node.value, (float, complex)):
+        # repr of an infinite value is "inf", which is a name and not a literal
+        return repr(node.value).replace("inf", _INF_STR)
     return repr(node.value)
     yield
 
